@@ -41,11 +41,11 @@
 time_t time(time_t *t) { if (t) *t = PINNED_TIME; return PINNED_TIME; }
 pid_t getpid(void) { return 4242; }
 /* archive_random() calls arc4random_buf on this platform (HAVE_ARC4RANDOM_BUF) */
+static unsigned char g_rand_ctr;	/* reset for every case: what a case sees must not depend on the cases before it */
 void arc4random_buf(void *buf, size_t n)
 {
-	static unsigned char ctr;
 	unsigned char *p = buf;
-	while (n-- > 0) *p++ = (unsigned char)(0x5a + 7 * ctr++);
+	while (n-- > 0) *p++ = (unsigned char)(0x5a + 7 * g_rand_ctr++);
 }
 
 /* ---- stack poisoning trampoline ---- */
@@ -286,6 +286,7 @@ static void read_back(const unsigned char *b, size_t n, int rmode)
 
 static void run_case(val *c)
 {
+	g_rand_ctr = 0;
 	int op = (int)v_ll(v_at(c, 0));
 	int loc = (int)v_ll(v_at(c, 1));
 	char *fmt = v_cstr(v_at(c, 2)), *opts = v_cstr(v_at(c, 3)), *flt = v_cstr(v_at(c, 4));
